@@ -999,6 +999,8 @@ pub struct MpcMsg {
 pub enum MpcMsgError {
     #[error("polytune engine is unreachable")]
     Unreachable,
+    #[error("MPC message from unknown party {0}")]
+    UnknownSender(usize),
 }
 
 impl<B, C> PolicyState<B, C>
@@ -1008,7 +1010,13 @@ where
 {
     #[tracing::instrument(level = Level::TRACE, skip(self, ret))]
     async fn msg(&self, mpc_msg: MpcMsg, ret: Ret<MpcMsgError>) -> ControlFlow<()> {
-        match self.channel_senders[mpc_msg.from].send(mpc_msg.data).await {
+        let Some(sender) = self.channel_senders.get(mpc_msg.from) else {
+            // Unknown sender index, or no policy has been scheduled yet (there are no queues).
+            // Answer with an error, but keep the state machine running.
+            ret_err(ret, MpcMsgError::UnknownSender(mpc_msg.from));
+            return ControlFlow::Continue(());
+        };
+        match sender.send(mpc_msg.data).await {
             Ok(_) => {
                 let _ = ret.send(Ok(()));
                 ControlFlow::Continue(())
